@@ -152,6 +152,17 @@ def gen_state_plan(rng, sc):
         it.top.append(Op('SET_YYIN'))
         it.top.append(Op('LEX', a=5000))
     it.top.append(Op('DESTROY'))
+    if rng.random() < 0.4:
+        # a destroyed scanner starts again in INITIAL with an empty stack,
+        # whatever was on the stack when it was destroyed
+        it.top.append(Op('INIT', a=rng.randint(0, 1)))
+        for _ in range(rng.choice([1, 2, 3, 5])):
+            k = rng.choice(['GET_STATE', 'TOP_STATE', 'POP_STATE', 'PUSH_STATE', 'POP_STATE', 'BEGIN'])
+            it.top.append(Op(k, a=rng.randint(0, 7)) if k in ('PUSH_STATE', 'BEGIN') else Op(k))
+        if rng.random() < 0.5:
+            it.top.append(Op('SCAN_BYTES', d=gen_input(rng, sc.alphabet, rng.randint(1, 12))))
+            it.top.append(Op('LEX', a=5000))
+        it.top.append(Op('DESTROY'))
     # EOF actions may change the condition too
     return p
 
